@@ -47,6 +47,11 @@ func junkAt(w *World, round string, now int64, thorough bool) []Item {
 	mkStart("range-negative", []requests.SigningTask{{MessageID: "r", RangeStart: -3, RangeEnd: 1}})
 	mkStart("range-beyond", []requests.SigningTask{{MessageID: "r", RangeStart: 18630, RangeEnd: 18640}})
 	mkStart("range-empty", []requests.SigningTask{{MessageID: "r", RangeStart: 5, RangeEnd: 5}})
+	// ranges that START at and next to the end of the embedded list (18 632 validators; the list text
+	// ends with a newline, so position 18632 exists and is empty, 18633 is the first one past it)
+	for _, st := range []int{18631, 18632, 18633, 18634} {
+		mkStart(fmt.Sprintf("range-starts-at-%d", st), []requests.SigningTask{{MessageID: "r", RangeStart: st, RangeEnd: st + 2}})
+	}
 	mkStart("range-far-beyond", []requests.SigningTask{{MessageID: "r", RangeStart: 1 << 40, RangeEnd: math.MaxInt64}})
 	mkStart("range-span-overflows", []requests.SigningTask{{MessageID: "r", RangeStart: math.MinInt64, RangeEnd: math.MaxInt64}})
 	mkStart("range-negative-wide", []requests.SigningTask{{MessageID: "r", RangeStart: -(1 << 62), RangeEnd: -1}})
